@@ -278,7 +278,9 @@ class Ctx(object):
         if f is not None:
             self.known_hits.setdefault(signature, f.get('what', what))
             return
-        if len(self.spec_fail) < 50:
+        # keep at most 3 reports per signature (and 60 overall) so one frequent failure cannot hide another
+        n_sig = sum(1 for s0, _, _ in self.spec_fail if s0 == signature)
+        if n_sig < 3 and len(self.spec_fail) < 60:
             self.spec_fail.append((signature, what, replay))
 
     def model_mismatch(self, what, replay):
@@ -309,10 +311,19 @@ def run_check(pid, tier, seed, replay=None):
     extra_targets = getattr(mod, 'COQ_TARGETS', [])
 
     # 1. translator + proofs
-    gen_rc, ctx.gen_status = regenerate()
+    gen_rc, gen_status = regenerate()
     targets = [p[:-2] + '.vo' for p in props_files] + list(extra_targets)
+    # only the generated files this property's proofs/harness depend on concern this check
+    try:
+        scope = dep_closure(list(props_files) + [t[:-1] for t in extra_targets])
+        mine = {k: v for k, v in gen_status.items()
+                if ('theories/Gen/%s.v' % k) in scope or k == 'error'}
+    except Exception:
+        mine = gen_status
+    ctx.gen_status = mine
+    gen_bad = [k for k, v in mine.items() if str(v).startswith('UNTRANSLATABLE') or k == 'error']
     ok, log = build(targets)
-    ctx.build_ok = ok and gen_rc == 0
+    ctx.build_ok = ok and not gen_bad
     ctx.build_log = log[-4000:]
     obligations = {}
     for pf in props_files:
